@@ -6,10 +6,16 @@ ROOT = pathlib.Path(__file__).resolve().parents[1]
 tmpl = (ROOT / "tools" / "design_sec10.md").read_text()
 res = json.loads((ROOT / "seeded" / "RESULTS.json").read_text()) if (ROOT / "seeded" / "RESULTS.json").exists() else {}
 rows = ["| id | the change | needs to manifest | caught by (quick tier) — smallest failing case reported |", "|---|---|---|---|"]
-for d in sorted(glob.glob(str(ROOT / "seeded" / "C*-m*"))):
+for d in sorted(glob.glob(str(ROOT / "seeded" / "C*-[mw]*"))):
     m = json.loads(open(d + "/meta.json").read()); sid = m["id"]; r = res.get(sid, {})
     cell = "; ".join(f"{k.split('/')[0]}: " + ("`" + v["smallest_failing_case"][:90].replace("|", "/").replace("`", "'") + "`" if v["caught"] else "**missed**") for k, v in sorted(r.items())) or "not run"
     rows.append(f"| {sid} | {m['summary'][:230].replace('|', '/')} | {m.get('needs_to_manifest', '')[:200].replace('|', '/')} | {cell} |")
+s7 = ROOT / "selftest" / "RESULTS_seed7.json"
+if s7.exists():
+    r7 = json.loads(s7.read_text()); missed = sorted(k for k, v in r7.items() if not all(x["caught"] for x in v.values()))
+    tmpl = tmpl.replace("SEED7_SUMMARY", f"{len(r7) - len(missed)} of {len(r7)} are caught" + (f" (missed under that seed: {', '.join(missed)})." if missed else "."))
+else:
+    tmpl = tmpl.replace("SEED7_SUMMARY", "(run pending).")
 tmpl = tmpl.replace("SEEDED_TABLE", "\n".join(rows))
 sw = []
 tot = [0, 0, 0]
